@@ -284,6 +284,12 @@ def proposalFresh (cv : Nat) (p : Phase) (view : Nat) : Bool :=
 def newBlockOk (s : Node) (e n : Nat) : Bool :=
   startReady n s.persistedNext && verifyPayloadGuard s.sched n e
 
+/-- A re-proposal (`none`) carries no payload to verify; a new block `some n` goes through `newBlockOk`. -/
+def proposalOk (s : Node) (e : Nat) (number : Option Nat) : Bool :=
+  match number with
+  | none => true
+  | some n => newBlockOk s e n
+
 /-- One atomic event. `none` = the event is not enabled in this state (or the schedule task panicked). -/
 def step (s : Node) : Ev → Option Node
   | .runnerInit last act com =>
@@ -310,7 +316,7 @@ def step (s : Node) : Ev → Option Node
   | .vote e view number tag =>
     match s.inst e with
     | .running cv p =>
-      if proposalFresh cv p view && (match number with | none => true | some n => newBlockOk s e n) then
+      if proposalFresh cv p view && proposalOk s e number then
         some (write s e view .commit (some { epoch := e, view := view, kind := .commit, tag := tag }))
       else none
     | _ => none
@@ -325,14 +331,13 @@ def step (s : Node) : Ev → Option Node
     some { s with persistedNext := s.persistedNext + 1,
                   queuedNext := if s.queuedNext < s.persistedNext + 1 then s.persistedNext + 1 else s.queuedNext }
   | .teardown e =>
-    match s.inst e, schedOf s.sched e with
-    | .absent, _ => none
-    | .done, _ => none
-    | _, some l =>
+    if s.inst e = .absent ∨ s.inst e = .done then none else
+    match schedOf s.sched e with
+    | some l =>
       match l.exp with
       | some x => if x < s.persistedNext then some (setInst s e .done) else none
       | none => none
-    | _, none => none
+    | none => none
   | .cancel e =>
     match s.inst e with
     | .absent => none
